@@ -63,7 +63,7 @@ static void build_ops(void) {
         for (int p = 0; p < 4; ++p) addop(F_TRIM, f, p, 0);
     for (int v = 0; v < 7; ++v)
         for (int ic = 0; ic < 2; ++ic) addop(F_STARTS, v, ic, 0);
-    for (int v = 0; v < 11; ++v) addop(F_EQ, v, 0, 0);
+    for (int v = 0; v < 18; ++v) addop(F_EQ, v, 0, 0);
     for (int v = 0; v < 6; ++v)
         for (int lk = 0; lk < 2; ++lk) addop(F_CMP, v, lk, 0);
     for (int v = 0; v < 5; ++v) addop(F_HUGE, v, 0, 0);
@@ -171,7 +171,7 @@ static bool m_enabled(int op) {
         case F_WRITE_TO_CAP: return sel_distinct(d->a);
         case F_FIND: return d->a == 7 ? rlen >= 1 : true;
         case F_STARTS: return d->a == 2 || d->a == 3 ? rlen >= 1 : d->a == 6 ? rlen >= 2 : true;
-        case F_EQ: return (d->a == 1 || d->a == 2 || d->a == 4) ? rlen >= 1 : true;
+        case F_EQ: return (d->a == 1 || d->a == 2 || d->a == 4 || d->a == 16 || d->a == 17) ? rlen >= 1 : true;
         case F_CMP: return (d->a >= 2 && d->a <= 4 ? rlen >= 1 : true) && (d->b || !rnull); /* compare_lexical: both pointers non-NULL */
         default: return true;
     }
@@ -518,10 +518,52 @@ static void m_apply(int op) {
                     want = false;
                     break;
                 }
-                default: {
+                case 10: {
                     struct aws_byte_cursor o = {0, NULL};
                     r = aws_byte_cursor_eq(&C, &o);
                     want = rlen == 0;
+                    break;
+                }
+                case 11:
+                case 12: { /* string.c: aws_string against the cursor */
+                    if (d->a == 12)
+                        for (size_t i = 0; i < n; ++i) t[i] = toggle(t[i]);
+                    struct aws_string *str = aws_string_new_from_array(&galloc_allocator, t, n);
+                    r = d->a == 11 ? aws_string_eq_byte_cursor(str, &C) : aws_string_eq_byte_cursor_ignore_case(str, &C);
+                    aws_string_destroy(str);
+                    break;
+                }
+                case 13: { /* string.c: copy of the cursor as a string, and a cursor over that string */
+                    struct aws_string *str = aws_string_new_from_cursor(&galloc_allocator, &C);
+                    struct aws_byte_cursor back = aws_byte_cursor_from_string(str);
+                    r = str->len == n && memcmp(aws_string_bytes(str), t, n) == 0 && aws_string_bytes(str)[n] == 0 && back.len == n && back.ptr == aws_string_bytes(str);
+                    aws_string_destroy(str);
+                    break;
+                }
+                case 15: {
+                    t[n] = 'A';
+                    t[n + 1] = 0;
+                    r = aws_byte_cursor_eq_c_str_ignore_case(&C, (const char *)tmp_block(t, n + 2));
+                    want = false;
+                    break;
+                }
+                case 16:
+                case 17: {
+                    if (d->a == 17) t[n - 1] = 'z';
+                    size_t m = d->a == 16 ? n - 1 : n;
+                    struct aws_byte_buf o = aws_byte_buf_from_array(tmp_block(t, m), m);
+                    r = d->a == 16 ? aws_byte_cursor_eq_byte_buf(&C, &o) : aws_byte_cursor_eq_byte_buf_ignore_case(&C, &o);
+                    want = false;
+                    break;
+                }
+                default: { /* 14: constructors over a NUL-terminated copy */
+                    t[n] = 0;
+                    const char *cs = (const char *)tmp_block(t, n + 1);
+                    struct aws_byte_cursor c2 = aws_byte_cursor_from_c_str(cs);
+                    struct aws_byte_buf b2 = aws_byte_buf_from_c_str(cs);
+                    struct aws_byte_cursor c3 = aws_byte_cursor_from_buf(&b2);
+                    r = c2.len == n && c2.ptr == (const uint8_t *)cs && b2.len == n && b2.capacity == n && b2.allocator == NULL && aws_byte_buf_is_valid(&b2) && (n == 0 || b2.buffer == (const uint8_t *)cs) &&
+                        c3.len == n && c3.ptr == b2.buffer;
                 }
             }
             ESX_CHECK(r == want, "comparison", "%s on [%s] returned %d, expected %d", nm, v_show(cb(), rlen), r, want);
@@ -624,7 +666,9 @@ static void m_opname(int op, char *buf, size_t cap) {
         }
         case F_EQ: {
             static const char *v[] = {"eq(copy)", "eq(last byte differs)", "eq(one byte shorter)", "eq_ignore_case(case toggled)", "eq_ignore_case(last byte differs)", "eq_byte_buf(copy)",
-                                      "eq_byte_buf_ignore_case(case toggled)", "eq_c_str(copy)", "eq_c_str_ignore_case(case toggled)", "eq_c_str(copy + 1 char)", "eq({NULL,0})"};
+                                      "eq_byte_buf_ignore_case(case toggled)", "eq_c_str(copy)", "eq_c_str_ignore_case(case toggled)", "eq_c_str(copy + 1 char)", "eq({NULL,0})", "string_eq_byte_cursor(copy)",
+                                      "string_eq_byte_cursor_ignore_case(case toggled)", "string_new_from_cursor + cursor_from_string", "cursor_from_c_str / buf_from_c_str / cursor_from_buf",
+                                      "eq_c_str_ignore_case(copy + 1 char)", "eq_byte_buf(one byte shorter)", "eq_byte_buf_ignore_case(last byte differs)"};
             snprintf(buf, cap, "%s", v[d->a]);
             break;
         }
